@@ -77,9 +77,26 @@ def imp(name: str):
 # Lean side
 # --------------------------------------------------------------------------------------------
 
+class lake_lock:
+    """checks of different properties may be started side by side: lake invocations on the one project directory are
+    serialised across processes with an advisory file lock"""
+
+    def __enter__(self):
+        import fcntl
+        self.f = open(os.path.join(LEAN_DIR, ".lake-verif.lock"), "w")
+        fcntl.flock(self.f, fcntl.LOCK_EX)
+        return self
+
+    def __exit__(self, *a):
+        import fcntl
+        fcntl.flock(self.f, fcntl.LOCK_UN)
+        self.f.close()
+
+
 def lake_build(targets=("EoVerif", "driver")) -> tuple[bool, str]:
     t0 = time.time()
-    p = subprocess.run(["lake", "build", *targets], cwd=LEAN_DIR, capture_output=True, text=True)
+    with lake_lock():
+        p = subprocess.run(["lake", "build", *targets], cwd=LEAN_DIR, capture_output=True, text=True)
     out = p.stdout + p.stderr
     return p.returncode == 0, out + f"\n[lake build {time.time()-t0:.1f}s]"
 
@@ -181,7 +198,8 @@ def audit_axioms(prop: str) -> dict:
     path = os.path.join(audit_dir, f"Audit_{prop}.lean")
     with open(path, "w") as f:
         f.write(src)
-    p = subprocess.run(["lake", "env", "lean", path], cwd=LEAN_DIR, capture_output=True, text=True)
+    with lake_lock():
+        p = subprocess.run(["lake", "env", "lean", path], cwd=LEAN_DIR, capture_output=True, text=True)
     out = p.stdout + p.stderr
     result = {}
     for m in re.finditer(r"'([^']+)' depends on axioms: \[([^\]]*)\]", out):
@@ -417,8 +435,9 @@ class Ctx:
     def leanchecker(self):
         reg = load_registry()[self.prop]
         t0 = time.time()
-        p = subprocess.run(["lake", "env", "leanchecker", *reg["modules"]], cwd=LEAN_DIR,
-                           capture_output=True, text=True)
+        with lake_lock():
+            p = subprocess.run(["lake", "env", "leanchecker", *reg["modules"]], cwd=LEAN_DIR,
+                               capture_output=True, text=True)
         self.extra["leanchecker"] = {"rc": p.returncode, "wall_s": round(time.time() - t0, 1),
                                      "modules": reg["modules"], "tail": (p.stdout + p.stderr)[-400:]}
         if p.returncode != 0:
